@@ -592,7 +592,34 @@ def _deadline_cmp(b):
     return None
 
 
+def r4_deadline_and_clock_share_a_resolution(ctx):
+    ctx.rule('C13.R4', 'P7 unit discipline: the SQL stores keep the deadline in whole seconds and compare it with the database clock in whole seconds '
+             '(`unixepoch()` truncates). Liveness `deadline > clock` is then exact to the second only if the deadline is truncated the same way: the value '
+             'of `Timestamp::as_second` is what is bound, with no arithmetic after it. Rounding the deadline UP ("a session must never live for less '
+             'than its TTL") while the clock rounds down keeps a record with TTL 0 live until the next whole second: `load` returns it, and a `create` '
+             'over the just-expired id is a silent no-op.')
+    n = 0
+    for b in ctx.fb.bodies(SQ):
+        if b.is_promoted:
+            continue
+        secs = [(bb, t) for bb, t in b.calls() if strip_generics(callee(t) or '').endswith('Timestamp::as_second') and not t['dest'].get('p')]
+        if not secs:
+            continue
+        if not any(x in b.nid for x in ('sqlite', 'unix', 'deadline', 'mysql', 'postgres')) and BACKEND not in b.nroot:
+            pass
+        defs = Defs(b)
+        for bb, t in secs:
+            n += 1
+            der = forward_derived(b, {t['dest']['l']}, defs, through_calls=False)
+            bad = [(xb, st) for xb, j, st in b.all_assigns() if st['rv']['k'] == 'bin' and st['rv']['bop'].startswith(('Add', 'Sub', 'Mul', 'Div'))
+                   and any(op_place(o) is not None and op_place(o)['l'] in der for o in (st['rv']['a'], st['rv']['b']))]
+            ctx.ob('C13.R4', 'deadline-truncated-like-the-clock|%s|bb%d' % (b.nroot.replace(SQ + '::', '').split('>::')[-1], bb), not bad, b.loc(*(bad[0] if bad else (bb, t))),
+                   'the whole-second deadline is used as `as_second()` returns it: %s' % (not bad))
+    ctx.floor('C13.R4', 'whole-second deadlines computed in the SQL stores', n, 3)
+
+
 def check(ctx):
+    r4_deadline_and_clock_share_a_resolution(ctx)
     r1_sqlite(ctx)
     r2_atomicity(ctx)
     r3_memory(ctx)
